@@ -190,6 +190,63 @@ def run_family(prop, tier, plan, free_plan, assumptions, mc_extra=(), post=None)
     return res.finish()
 
 
+def session_late_stage(res, rng, vh, scen, plan, free_plan):
+    """C02 applied to event-time SESSION windows: behaviours of the Session model with ALLOWEDLATENESS > 0 and seeded
+    free-running inputs, replayed on the real engine, validated by TraceSessionLate (no early firing; late events only into
+    the key's own fired session while it is within the allowance, re-delivered as previous contents plus the event)."""
+    from concurrent.futures import ThreadPoolExecutor
+    with ThreadPoolExecutor(max_workers=4) as ex:
+        gen = [f.result() for f in [ex.submit(generate, res, kind, c) for kind, c in plan]]
+    sc_path = os.path.join(vlib.scratch(), "sl_scen.ndjson")
+    tr_path = os.path.join(vlib.scratch(), "sl_trace.ndjson")
+    base = max(scen) if scen else 0
+    mine = {}
+    with open(sc_path, "w") as f:
+        for (kind, c), (steps_list, nd, ng) in zip(plan, gen):
+            res.cov["states"] += nd
+            res.cov["transitions"] += ng
+            if c.get("cap") and len(steps_list) > c["cap"]:
+                steps_list = rng.sample(steps_list, c["cap"])
+            for steps in steps_list:
+                base += 1
+                mine[base] = {"tr": base, "cfg": mkcfg(kind, c, rng), "steps": steps, "free": False}
+                f.write(json.dumps(mine[base]) + "\n")
+        for kind, c, count, length in free_plan:
+            for _ in range(count):
+                base += 1
+                mine[base] = {"tr": base, "cfg": mkcfg(kind, c, rng), "steps": random_free(kind, c, rng, length), "free": True}
+                f.write(json.dumps(mine[base]) + "\n")
+    rc, out = vlib.sh([vh, "win", "-scen", sc_path, "-out", tr_path, "-par", "16"], 1500)
+    if rc != 0:
+        raise vlib.Inconclusive("driver failed (session late stage):\n" + out[-3000:])
+    inc = [l for l in out.splitlines() if l.startswith("INCONCLUSIVE")]
+    if len(inc) > max(3, len(mine) // 50):
+        raise vlib.Inconclusive("%d of %d session scenarios inconclusive, e.g. %s" % (len(inc), len(mine), inc[0]))
+    kd = vlib.known_devs(res.prop)
+    rej, devs, nlines = vlib.validate(SPEC, "TraceSessionLate", tr_path, set(kd))
+    still = {r[0] for r in rej}
+    cnt = {}
+    for tr, _, d in devs:
+        if tr not in still and d in kd:
+            cnt.setdefault(d, set()).add(tr)
+    for d, trs in cnt.items():
+        res.known[d] = res.known.get(d, 0) + len(trs)
+    seen = set()
+    for tr, line, code in rej:
+        if tr in seen:
+            continue
+        seen.add(tr)
+        res.violation("session windows: %s at trace line %d of scenario %d" % (code, line, tr), mine.get(tr))
+    res.cov["traces_validated_against_impl"] += len(mine) - len(inc)
+    res.cov["evaluations"] += len(mine)
+    res.cov["trace_events"] += nlines
+    res.notes.append("session windows under C02: %d scenarios (model behaviours with ALLOWEDLATENESS > 0 + free-running), monitor TraceSessionLate" % len(mine))
+    for kind, c in plan:
+        mc = dict(c)
+        mc.update(c.get("mc", {}))
+        model_check(res, kind, mc)
+
+
 def proc_stage(res, rng, vh, scen, size=2, maxnow=5, maxev=3, nmodel=120, nfree=12, mc=None):
     """Processing-time tumbling window (the default time characteristic): model check ProcTumbling, replay its
     behaviours in real time with the timer goroutine gated (lagging / coalesced ticks), plus free-running inputs;
@@ -258,7 +315,7 @@ def proc_stage(res, rng, vh, scen, size=2, maxnow=5, maxev=3, nmodel=120, nfree=
     res.cov["trace_events"] += nlines
 
 
-def replay_one(sc):
+def replay_one(sc, prop=None):
     vh = vlib.build_vh()
     if "size_ms" in sc:          # processing-time scenario
         sp = os.path.join(vlib.scratch(), "one.ndjson")
@@ -275,5 +332,8 @@ def replay_one(sc):
     rc, out = vlib.sh([vh, "win", "-scen", sp, "-out", tp], 120)
     print(out.strip())
     print(open(tp).read())
-    rej, _, _ = vlib.validate(SPEC, "TraceWin", tp, set())
+    mon = "TraceWin"
+    if sc.get("cfg", {}).get("kind") == "session":
+        mon = "TraceSessionLate" if prop == "C02" else "TraceSession"
+    rej, _, _ = vlib.validate(SPEC, mon, tp, set(vlib.known_devs(prop)) if prop else set())
     return rej
